@@ -410,13 +410,18 @@ def prop_C18(ctx):
             why = 'expansions are not token-identical between the back-ends'
         elif ca == 'err':
             def o2o_set(s):
-                out = set()
+                # (o2o's templated diagnostics, was there an attribute-syntax / library parse error).  `unexpected token` is both o2o's
+                # own diagnostic (syn 2 branch: a bare attribute with a brace / bracket list, which the syn 1 branch reports through syn's
+                # parser) and syn's wording for its own parse errors, so the two are one class: "the attribute text does not parse"
+                out, syntax = set(), False
                 for m in vlib.err_msgs(s):
-                    if m in ATTR_SYNTAX_MSGS or m.startswith('unexpected token'):     # syn's own wording: `unexpected token[, expected ..]`
-                        out.add('<attribute-syntax>')
+                    if m is None or m in ATTR_SYNTAX_MSGS or m.startswith('unexpected token'):
+                        syntax = True
                     elif any(p.fullmatch(m) for p in tmpl):
                         out.add(m)
-                return out
+                    else:
+                        syntax = True          # library wording
+                return out | ({'<attribute-syntax>'} if syntax else set())
             sa, sb = o2o_set(a['out']), o2o_set(b['out'])
             if sa != sb:
                 why = 'o2o diagnostics differ between the back-ends: %r vs %r' % (sorted(sa), sorted(sb))
